@@ -128,7 +128,7 @@ static std::string oracle(const Case& c) {
 
 static void run() {
     setup(); Args& a = W().args;
-    rc_run("c16-wipe", a.n(1500, 60000), 100, [&]() {
+    rc_run("c16-wipe", a.n(4000, 80000), 100, [&]() {
         Case c; c.set("secret", hex(*rc::gen::noShrink(vf::bytes(19)))); c.set("birthday", (uint64_t)*g::birthday()); c.set("ufeat", *in_range<unsigned>(0, 8)); c.set("lang", REG->at(*g::lang_index()).name_en); c.set("coin", (uint64_t)*g::coin());
         std::string pw = *rc::gen::element<std::string>("", "correct horse battery staple", "contrase\xc3\xb1""a-segura-\xc3\xa9\xc3\xa1", "\xe3\x83\x91\xe3\x82\xb9\xe3\x83\xaf\xe3\x83\xbc\xe3\x83\x89""0123456789"); auto tail = *rc::gen::noShrink(vf::bytes(12)); for (auto b : tail) pw.push_back((char)('a' + b % 26));
         c.set("pw", hex(pw)); c.set("mask", hex(*rc::gen::noShrink(vf::bytes(32)))); c.set("scenario", *in_range<unsigned>(0, 64));
